@@ -572,7 +572,7 @@ struct TemplateCore {
                         break;
                     }
 
-                    if (match != 0) {
+                    if ((match != 0) && (end_offset != 0)) { // No tag without its closing '}'.
                         MathTag *tag   = (storage->Insert(TagBit{})).MakeMathTag();
                         tag->Offset    = (offset - TagPatterns::MathPrefixLength);
                         tag->EndOffset = end_offset;
@@ -715,12 +715,23 @@ struct TemplateCore {
 
                 case TagPatterns::LoopEndID: {
                     if ((loop_tag != nullptr) && parent_storage.IsNotEmpty()) {
-                        storage = *(parent_storage.Last());
-                        parent_storage.Drop(SizeT{1});
+                        Array<TagBit> *tmp     = *(parent_storage.Last());
+                        TagBit        *tag_bit = tmp->Last();
 
-                        LoopTag &tag  = storage->Last()->GetLoopTag();
-                        tag.EndOffset = (finder.GetOffset() - TagPatterns::LoopSuffixLength);
-                        loop_tag      = tag.Parent;
+                        // Only close a loop: the innermost open tag can be an <if>, a super variable or an inline if.
+                        if ((tag_bit != nullptr) && (tag_bit->GetType() == TagType::Loop)) {
+                            storage = tmp;
+                            parent_storage.Drop(SizeT{1});
+
+                            LoopTag &tag  = tag_bit->GetLoopTag();
+                            tag.EndOffset = (finder.GetOffset() - TagPatterns::LoopSuffixLength);
+                            loop_tag      = tag.Parent;
+
+                            if (tag.EndOffset < (tag.Offset + tag.ContentOffset)) {
+                                // The '>' that ended the opening tag belongs to this </loop>: not a loop.
+                                storage->Drop(SizeT{1});
+                            }
+                        }
                     }
 
                     finder.Next();
@@ -1224,31 +1235,62 @@ struct TemplateCore {
         offset += tag.Length;
 
         if (tag.Case.IsNotEmpty() && evaluate(result, expr, QOperation::NoOp)) {
-            const TagBit *s_tag = tag.SubTags.First();
-            const TagBit *s_end{nullptr};
-            SizeT         value_offset;
-            SizeT         value_end_offset;
+            SizeT value_offset;
+            SizeT value_end_offset;
 
             if (result > 0U) {
-                if (tag.TrueOffset < tag.FalseOffset) {
-                    s_end = (s_tag + tag.FalseTagsStartID);
-                } else {
-                    s_end = tag.SubTags.End();
-                    s_tag += tag.TrueTagsStartID;
-                }
-
                 value_offset     = (tag.Offset + tag.TrueOffset);
                 value_end_offset = (value_offset + tag.TrueLength);
             } else {
-                if (tag.FalseOffset < tag.TrueOffset) {
-                    s_end = (s_tag + tag.TrueTagsStartID);
-                } else {
-                    s_end = tag.SubTags.End();
-                    s_tag += tag.FalseTagsStartID;
-                }
-
                 value_offset     = (tag.Offset + tag.FalseOffset);
                 value_end_offset = (value_offset + tag.FalseLength);
+            }
+
+            // Render the sub-tags that lie completely inside the selected attribute value. (A malformed tag can
+            // carry sub-tags outside of it: a misspelled attribute name, a quote inside a variable's name.)
+            const auto sub_tag_range = [](const TagBit *sub_tag, SizeT &from, SizeT &to) noexcept -> bool {
+                switch (sub_tag->GetType()) {
+                    case TagType::Variable: {
+                        const VariableTag &var = sub_tag->GetVariableTag();
+                        from                   = (var.Offset - TagPatterns::VariablePrefixLength);
+                        to                     = (from + var.Length + TagPatterns::VariableFullLength);
+                        return true;
+                    }
+
+                    case TagType::RawVariable: {
+                        const VariableTag &var = sub_tag->GetVariableTag();
+                        from                   = (var.Offset - TagPatterns::RawVariablePrefixLength);
+                        to                     = (from + var.Length + TagPatterns::RawVariableFullLength);
+                        return true;
+                    }
+
+                    case TagType::Math: {
+                        const MathTag &math = sub_tag->GetMathTag();
+                        from                = math.Offset;
+                        to                  = math.EndOffset;
+                        return true;
+                    }
+
+                    default: {
+                        return false;
+                    }
+                }
+            };
+
+            const TagBit *s_tag  = tag.SubTags.First();
+            const TagBit *s_last = tag.SubTags.End();
+            SizeT         from   = 0;
+            SizeT         to     = 0;
+
+            while ((s_tag < s_last) && (!sub_tag_range(s_tag, from, to) || (from < value_offset))) {
+                ++s_tag;
+            }
+
+            const TagBit *s_end = s_tag;
+
+            while ((s_end < s_last) && sub_tag_range(s_end, from, to) && (from >= value_offset) &&
+                   (to <= value_end_offset)) {
+                ++s_end;
             }
 
             render(s_tag, s_end, value_offset, value_end_offset);
